@@ -563,6 +563,45 @@ def _arch(m) -> Any:
         return f"init_dict failed: {e!r}"
 
 
+_ATTR_SKIP = ("net_config", "observation_space", "action_space", "observation_spaces", "action_spaces", "possible_observation_spaces", "possible_action_spaces",
+              "single_space", "registry", "accelerator", "device")
+
+
+def walk_tensor_attrs(agent, max_depth: int = 3):
+    """Yield (path, tensor-or-array) for every non-empty torch.Tensor / numpy array stored directly or inside lists, tuples and dicts
+    of the agent's own attributes (exploration-noise state, action bounds, bandit matrices, ...). Networks and optimizers are not
+    descended into - they have their own fingerprints - and the (immutable) spaces are skipped."""
+    base = getattr(agent, "agent", agent) if type(agent).__name__ == "RSNorm" else agent
+    out = []
+
+    def rec(path, v, depth):
+        if isinstance(v, torch.nn.Module) or hasattr(v, "optimizer"):
+            return
+        if isinstance(v, torch.Tensor):
+            if v.numel() > 0:
+                out.append((path, v))
+        elif isinstance(v, np.ndarray):
+            if v.size > 0 and v.dtype != object:
+                out.append((path, v))
+        elif depth < max_depth and isinstance(v, (list, tuple)):
+            for i, x in enumerate(v):
+                rec(f"{path}[{i}]", x, depth + 1)
+        elif depth < max_depth and isinstance(v, dict):
+            for k in sorted(v, key=str):
+                rec(f"{path}[{k}]", v[k], depth + 1)
+
+    for attr in sorted(vars(base)):
+        if attr.startswith("_") or attr in _ATTR_SKIP:
+            continue
+        rec(attr, vars(base)[attr], 0)
+    return out
+
+
+def attr_fp(agent) -> Dict[str, Any]:
+    """Value fingerprint of tensor / array state kept outside networks and optimizers (see walk_tensor_attrs)."""
+    return {f"attr:{path}": tensor_hash(torch.as_tensor(v)) for path, v in walk_tensor_attrs(agent)}
+
+
 def storage_fp(agent) -> Dict[Tuple[int, int], str]:
     """Storage fingerprint: data pointers of trainable parameters, optimizer state tensors, and ids of mutable
     registry / bookkeeping objects. Key -> component name."""
@@ -588,6 +627,9 @@ def storage_fp(agent) -> Dict[Tuple[int, int], str]:
     for attr, val in vars(getattr(agent, "agent", agent)).items():
         if isinstance(val, torch.Tensor) and val.numel() > 0 and not attr.startswith("_"):
             fp[(val.untyped_storage().data_ptr(), 6)] = f"tensor_attr:{attr}"
+    # (tensors / arrays nested in list or dict attributes - exploration-noise state, action bounds - are covered by value:
+    # attr_fp() is part of the bystander snapshots, so an alias shows as soon as the library writes through it; constant arrays that
+    # the library never writes to may legitimately be shared)
     rms = getattr(agent, "obs_rms", None) if type(agent).__name__ == "RSNorm" else None
     if rms is not None:
         stack = [rms]
